@@ -11,7 +11,15 @@
   * `occ a n`           — the recurrence set restricted to the first `n` selected periods: not before
                           DTSTART, cut after COUNT items / at the last instant ≤ UNTIL
   * `window a lo hi max`— the same set restricted to dates `lo..hi` (ordinals), computed without
-                          visiting the periods of days that fail the date-level parts (executable oracle)
+                          visiting the periods of days that fail the date-level parts (executable oracle;
+                          not proved equal to `occ`: cross-checked against it for all seven frequencies in
+                          every run of the check)
+
+  One reading of the RFC is fixed here on purpose, and it is the library's documented one: the values
+  "derived from DTSTART" (RFC 5545 §3.3.10) are filled in only when NONE of BYWEEKNO / BYYEARDAY / BYMONTHDAY /
+  BYDAY / BYEASTER is supplied (`noDayParts`: month and month day for YEARLY, month day for MONTHLY, weekday
+  for WEEKLY).  So YEARLY with BYWEEKNO and no BYDAY means all seven days of the listed weeks, not DTSTART's
+  weekday as some other implementations read it.  Everything else is calendar arithmetic only.
 -/
 import DateutilVerif.Model.RRuleTypes
 import DateutilVerif.Spec.Easter
